@@ -12,6 +12,10 @@ mod family;
 
 use kit::{Args, Run};
 
+/// allocation meter for C06 ("never requests memory out of proportion to the size of the input")
+#[global_allocator]
+static ALLOC: kit::alloc::Tracking = kit::alloc::Tracking;
+
 /// (field, hasher) pairs used by the quick tier: every field, every hasher at least once
 pub const QUICK_PAIRS: [usize; 6] = [0, 3, 4, 6, 8, 11];
 
@@ -65,6 +69,7 @@ fn main() {
         },
         "C06" => {
             let run = Run::new(args, "fault_enumeration");
+            run.require(kit::alloc::installed(), "C06: the tracking allocator is not installed");
             let subs = c06::subs(&run);
             run.go(subs)
         },
